@@ -71,7 +71,7 @@ End Refine.
 Lemma weights_refuted : c04_predict c04_incremental <> c04_true /\ c04_predict c04_recomputed = c04_true.
 Proof.
 split.
-  by move=> H; have := f_equal qc_num H; vm_compute.
+  by move=> H; have := f_equal qc_den H; vm_compute.
 by apply: Qc_is_canon; vm_compute.
 Qed.
 
@@ -113,7 +113,7 @@ Lemma gather_norm_raw (e : env) vs :
 Proof.
 elim: vs => [|v vs IH] //=.
 case: (lookup e v) => [t|] //; rewrite IH; case: (gather e false vs) => [l|] //=.
-by rewrite (SysProofs.as_norm_raw Hnd).
+by rewrite (SysProofs.as_norm_raw V norm denorm Hnd).
 Qed.
 
 (* writing normalised surrogate outputs or raw model outputs is the same in physical units *)
@@ -123,7 +123,7 @@ Proof.
 move=> Hc; elim: vs ys => [|v vs IH] [|y ys] //= w.
 move: (IH ys w); rewrite /Sys.canon /=.
 case E: (PeanoNat.Nat.eqb w v) => //= _.
-by rewrite /Sys.as_raw /= Hdn.
+Show. by rewrite /Sys.as_raw /= Hdn.
 Qed.
 
 Lemma chain_gen (order : seq comp) (e0 e0' e1 : env) :
@@ -136,7 +136,7 @@ Lemma chain_gen (order : seq comp) (e0 e0' e1 : env) :
 Proof.
 elim: order e0 e0' e1 => [|c order IH] e0 e0' e1 H Hc /=.
   by case=> <-; exists e0'.
-rewrite /Sys.comp_step /= gather_norm_raw (SysProofs.gather_ceq Hnd false (cin c) Hc).
+rewrite /Sys.comp_step /= gather_norm_raw (SysProofs.gather_ceq V norm denorm Hnd e0 e0' false (cin c) Hc).
 case G: (gather e0' false (cin c)) => [xsr|] //.
 have [-> _] := H c (or_introl erefl) xsr (gather_size G).
 apply: IH; last exact: zip_out_ceq.
